@@ -522,6 +522,58 @@ def run(index, rep, tier):
         rep.rule("R06.12", "per-split summaries are recomputed when the collection has grown, whatever was queried in between: the two summary tables share one staleness stamp, so neither getter nor calculator may bring that stamp up to date on its own (C05 R05.1)")
         rep.floor("R06.12", "borrowed obligations", 2, borrow(index, rep, "C05", {"R05.1"}, "R06.12"))
 
+    # ---- R06.13 a source without trees is not the end of the run
+    with rep.section("R06.13"):
+        rep.rule("R06.13", "a source without trees is not the end of the parallel run: a helper of sumtrees that returns from inside a loop and otherwise falls off its end answers None for an empty source, so where the driver uses such a result (iterates it, reads an attribute) the use is dominated by a test of the value - the serial route never asks the question, so an empty first file must not make `-m N` fail where the serial run succeeds")
+        SM = "dendropy.application.sumtrees"
+        maybe_none = set()
+        for f in index.functions_in_module(SM):
+            g = cfg_of(f)
+            rets = [n for n in g.nodes if isinstance(n.ast, ast.Return) and n.ast.value is not None and not is_none(n.ast.value)]
+            if not rets:
+                continue
+            # a normal exit that is not one of the explicit value returns
+            falls = any(any(t is g.exit and lab != "e" for lab, t in n.succ) and not isinstance(n.ast, (ast.Return, ast.Raise)) for n in g.nodes if n in g.reach([g.entry], follow_exc=False))
+            if falls:
+                maybe_none.add(f.name)
+        n13 = 0
+        for f in index.functions_in_module(SM):
+            g = None
+            for st in walk_no_nested(f.node):
+                if isinstance(st, ast.Assign) and len(st.targets) == 1 and isinstance(st.targets[0], ast.Name) and isinstance(st.value, ast.Call) and call_name(st.value) in maybe_none:
+                    x = st.targets[0].id
+                    g = g or cfg_of(f)
+                    d = node_of_ast(g, st)
+                    n13 += 1
+
+                    def tested(n, x=x):
+                        if n.kind != "test":
+                            return False
+                        t = n.ast
+                        return (isinstance(t, ast.Name) and t.id == x) or (isinstance(t, ast.Compare) and len(t.ops) == 1 and isinstance(t.ops[0], (ast.Is, ast.IsNot)) and norm(t.left) == x and is_none(t.comparators[0]))
+
+                    def uses(n, x=x):
+                        for e in node_exprs(n) + ([n.ast] if n.kind == "forinit" else []):
+                            if e is None:
+                                continue
+                            for y in ast.walk(e):
+                                if isinstance(y, ast.Attribute) and isinstance(y.value, ast.Name) and y.value.id == x:
+                                    return True
+                                if isinstance(y, ast.Subscript) and isinstance(y.value, ast.Name) and y.value.id == x:
+                                    return True
+                                if isinstance(y, ast.comprehension) and isinstance(y.iter, ast.Name) and y.iter.id == x:
+                                    return True
+                            if n.kind == "forinit" and isinstance(n.ast, ast.Name) and n.ast.id == x:
+                                return True
+                        return False
+
+                    def rebound(n, x=x):
+                        return n is not d and isinstance(n.ast, ast.Assign) and any(isinstance(t, ast.Name) and t.id == x for t in n.ast.targets) and not (isinstance(n.ast.value, ast.Call) and call_name(n.ast.value) in maybe_none)
+                    w = g.can_reach(d, uses, avoid=lambda n: tested(n) or rebound(n), follow_exc=False) if d is not None else None
+                    rep.check(w is None, "R06.13", f.qualname, "result of `%s` used without a test for None" % call_name(st.value), fn_where(f, w.ast if w is not None and w.ast is not None else st), "%s: the result of %s is tested before use" % (f.name, call_name(st.value)),
+                              "%s uses the result of `%s` (`%s`) without testing it, but that helper answers None when its source holds no tree (it returns from inside its loop and otherwise falls off the end): with an empty first input file the multiprocessing route dies with \"'NoneType' object is not iterable\" while the serial route summarises the remaining files" % (f.qualname, call_name(st.value), norm_stmt(st)[:60]))
+        rep.floor("R06.13", "uses of helpers that may answer None", 1, n13)
+
 
 def _root_of(e):
     while isinstance(e, (ast.Attribute, ast.Subscript, ast.Call)):
